@@ -196,19 +196,11 @@ def check(ctx):
     mc = model_check(ctx)
     tlc_scripts, gstats = generate(ctx)
     build_s = cargo_build(ctx, ["notif"])
-    rng = random.Random(ctx.seed)
-    nrand = 60 if ctx.quick() else 2000
-    scripts = nu.families(ctx.seed, ctx.tier) + tlc_scripts + [nu.random_script(rng, i, ctx.seed) for i in range(nrand)]
+    nrand = 60 if ctx.quick() else 1200
+    scripts, skipped = nu.transport_plan(ctx, nu.families(ctx.seed, ctx.tier), tlc_scripts,
+                                         lambda i: nu.random_script(random.Random(ctx.seed * 1000003 + i), i, ctx.seed), nrand)
     ctx.scripts_by_id = {s["id"]: s for s in scripts}
-    lines, summs = [], []
-    batch = 400
-    for b in range(0, len(scripts), batch):
-        summ, ls = nu.run_scripts(ctx, scripts[b:b + batch], "b%d" % b, threads=100)
-        summs.append(summ)
-        lines += ls
-        log("HARNESS batch %d: %s (build %ss)" % (b // batch, summ, build_s))
-    if sum(s["harness_panics"] for s in summs) or sum(s["connect_failed"] for s in summs) > len(scripts) // 10:
-        raise ToolError("harness trouble: %s" % summs)
+    lines, summs = nu.run_batches(ctx, scripts, "b", build_s)
     nseg, nev, rejects = validate_all(ctx, "NotifTrace.tla", "NotifTrace.cfg", lines)
     violations = collect(ctx, rejects, lines=lines)
     save_known_repros(ctx, violations)
@@ -217,11 +209,13 @@ def check(ctx):
         ctx.notes.append("drift: NotificationHandle::send_sync_notification for a peer without an open stream returned Ok(()) %d times "
                          "(nothing is sent; the asynchronous variant returns Err(PeerDoesntExist)); judged as 'not sent', see C12" % nostream)
     cov = evidence(mc, gstats, summs, lines, nseg, nev, scripts)
+    cov["families_not_run_per_transport"] = skipped
     return conclude(ctx, "model_checking", cov, violations, ASSUME)
 
 
 def evidence(mc, gstats, summs, lines, nseg, nev, scripts):
     kinds, distinct, unstable, obligated = {}, set(), 0, 0
+    per_tr, tr = {}, "tcp"
     cur = []
     for ln in lines:
         d = json.loads(ln)
@@ -229,9 +223,14 @@ def evidence(mc, gstats, summs, lines, nseg, nev, scripts):
             if cur:
                 distinct.add(hash(tuple(cur)))
             cur = []
+            tr = d.get("tr", "tcp")
+            pt = per_tr.setdefault(tr, {"endpoint_logs": 0, "scenarios": set(), "kinds": {}})
+            pt["endpoint_logs"] += 1
+            pt["scenarios"].add(d.get("sc"))
             continue
         k = d["e"] + (":" + str(d.get("k", d.get("r", ""))) if d["e"] in ("ev", "conn", "open", "val", "close") else "")
         kinds[k] = kinds.get(k, 0) + 1
+        per_tr[tr]["kinds"][k] = per_tr[tr]["kinds"].get(k, 0) + 1
         if d["e"] == "quiesce" and not d["stable"]:
             unstable += 1
         if d["e"] != "send" and not (d["e"] == "ev" and d.get("k") == "recv"):
@@ -246,9 +245,11 @@ def evidence(mc, gstats, summs, lines, nseg, nev, scripts):
         if len(samples) >= 8:
             break
     needed = ["ev:validate", "ev:opened", "ev:closed", "ev:openfail", "open:ok", "val:sent", "conn:cut", "conn:up", "conn:down"]
-    missing = [k for k in needed if not kinds.get(k)]
+    missing = ["%s/%s" % (t, k) for t in nu.TRANSPORTS for k in needed if not per_tr.get(t, {}).get("kinds", {}).get(k)]
     if missing:
         raise ToolError("event kinds never exercised on real nodes: %s" % missing)
+    for pt in per_tr.values():
+        pt["scenarios"] = len(pt["scenarios"])
     return {
         "states": sum(m["distinct"] for m in mc),
         "transitions": sum(m["transitions"] for m in mc),
@@ -264,6 +265,7 @@ def evidence(mc, gstats, summs, lines, nseg, nev, scripts):
         "generation": gstats,
         "harness": summs,
         "event_kinds": kinds,
+        "per_transport": per_tr,
         "unstable_runs_not_judged_at_quiescence": unstable,
         "exhaustive": False,
     }
